@@ -78,6 +78,14 @@ def design_checks(ctx, nq, canonical):
         ctx.stage("model-asis-counterexample", property="C10_Terminates", kind="lasso (non-terminating queue walk)",
                   states=n, scenario=("par=%s jobq=%s" % lasso[0]) if lasso else "")
         ctx.cov["states"] += n
+    if r is not None and not r.ok and r.kind == "temporal" and r.violated in ("C10_Terminates", "temporal"):
+        n = r.distinct or 0
+        lasso = re.findall(r"scn = \[ par \|-> (\[[^\]]*\]).*?jobq \|-> (\"[^\"]*\")", r.out, re.S)
+        vlib.log("model-level lasso for C10_Terminates (prediction, executed on the real code below)")
+        ctx.stage("model-asis-counterexample", property="C10_Terminates", kind="lasso (non-terminating queue walk)",
+                  states=n, scenario=("par=%s jobq=%s" % lasso[0]) if lasso else "")
+        ctx.cov["states"] += n
+        r = None
     predicted = r is None
     if r is not None:
         if not r.ok:
